@@ -28,46 +28,61 @@ Section SshGateProofs.
   Variable oidc : bytes -> Z -> option bytes.
   Variable c : au_cfg.
 
-  (* a virtual-client session exists only if the ssh key is authorised by the configured file or the token is valid *)
-  Theorem sg_session_implies_key_or_token k s conn now gen attempts cmd_token cmd_user ts pool s' rid sid :
-    sg_step H oidc c k s conn now gen attempts cmd_token cmd_user ts pool = (s', SgForwarded (AuOLoginOk rid sid)) ->
+  (* a virtual-client session exists only if the ssh key is authorised by the configured file or the login the plugin
+     chain returned carries a valid credential (without plugins: the token of the command line) *)
+  Theorem sg_session_implies_key_or_token k s conn now gen attempts cmd_token cmd_user ts pool lplug s' rid sid :
+    sg_step H oidc c k s conn now gen attempts cmd_token cmd_user ts pool lplug = (s', SgForwarded (AuOLoginOk rid sid)) ->
     sg_key_authorised k attempts \/
-    exists perm, au_login_cred_ok H oidc c now (sg_login H k perm cmd_token cmd_user ts pool) = true.
+    exists perm l, au_lplug_apply lplug (sg_login H k perm cmd_token cmd_user ts pool) = Some l /\
+                   (au_login_cred_ok H oidc c now l = true \/ asp_always_pass (al_spec l) = true /\ lplug <> AuLPlugSame).
   Proof.
     unfold sg_step. destruct (sg_auth k attempts) as [perm|] eqn:A; [|discriminate].
     destruct (sg_no_client_auth k) eqn:N.
-    - (* no authorized_keys file: the flag is off, so the configured verifier decided *)
-      intros E. right. exists perm.
-      destruct (au_login_cred_ok H oidc c now (sg_login H k perm cmd_token cmd_user ts pool)) eqn:Cr; [reflexivity|].
-      exfalso.
-      destruct (au_bad_login_refused H oidc c s true conn now gen _ Cr) as [e R].
-      { cbn. unfold sg_always_pass. now rewrite N. }
-      rewrite R in E. discriminate.
+    - intros E. right. exists perm.
+      destruct (au_lplug_apply lplug (sg_login H k perm cmd_token cmd_user ts pool)) as [l|] eqn:LP.
+      + exists l. split; [reflexivity|].
+        destruct (au_login_cred_ok H oidc c now l) eqn:Cr; [now left|]. right.
+        destruct (asp_always_pass (al_spec l)) eqn:Fl.
+        * split; [reflexivity|]. intros ->. cbn in LP. injection LP as <-. cbn in Fl. unfold sg_always_pass in Fl.
+          rewrite N in Fl. discriminate.
+        * exfalso.
+          destruct (au_bad_login_refused H oidc c s true conn now gen _ lplug l LP Cr) as [e R]; [now rewrite Fl|].
+          rewrite R in E. discriminate.
+      + exfalso. rewrite (au_login_plugin_reject_refused H oidc c s true conn now gen _ lplug LP) in E. discriminate.
     - intros _. left. now apply (sg_auth_file_authorised k attempts N perm).
   Qed.
 
-  (* the configuration the batch-3 seed attacks: no authorized_keys file => only the token admits *)
+  (* the configuration the batch-3 seed attacks: no authorized_keys file, no Login plugin rewriting => only the token admits *)
   Corollary sg_no_file_needs_token s conn now gen attempts cmd_token cmd_user ts pool s' rid sid :
-    sg_step H oidc c SgNoFile s conn now gen attempts cmd_token cmd_user ts pool = (s', SgForwarded (AuOLoginOk rid sid)) ->
+    sg_step H oidc c SgNoFile s conn now gen attempts cmd_token cmd_user ts pool AuLPlugSame = (s', SgForwarded (AuOLoginOk rid sid)) ->
     au_login_cred_ok H oidc c now (sg_login H SgNoFile None cmd_token cmd_user ts pool) = true.
   Proof.
-    intros E. pose proof E as E0. unfold sg_step in E0.
-    destruct (sg_auth SgNoFile attempts) as [perm|] eqn:A; [|discriminate].
-    apply sg_auth_no_file in A. subst perm.
-    destruct (sg_session_implies_key_or_token _ _ _ _ _ _ _ _ _ _ _ _ _ E) as [(l & key & u & Ek & _)|[perm Cr]]; [discriminate|].
-    exact Cr.
+    intros E.
+    destruct (sg_session_implies_key_or_token _ _ _ _ _ _ _ _ _ _ _ _ _ _ E) as [(l & key & u & Ek & _)|(perm & l & LP & [Cr|[_ Ne]])];
+      [discriminate | | now contradiction Ne].
+    cbn in LP. injection LP as <-. exact Cr.
+  Qed.
+
+  (* a Login plugin that rejects refuses the gateway session too, authorised key or not *)
+  Theorem sg_login_plugin_reject_refused k s conn now gen attempts cmd_token cmd_user ts pool lplug :
+    (forall l, au_lplug_apply lplug l = None) ->
+    forall rid sid, snd (sg_step H oidc c k s conn now gen attempts cmd_token cmd_user ts pool lplug) <> SgForwarded (AuOLoginOk rid sid).
+  Proof.
+    intros R rid sid. unfold sg_step. destruct (sg_auth k attempts) as [perm|]; [|discriminate].
+    rewrite (au_login_plugin_reject_refused H oidc c s true conn now gen _ lplug (R _)). cbn. discriminate.
   Qed.
 
   (* whatever does not end in LoginOk leaves the server state as it was *)
-  Theorem sg_refused_leaves_state k s conn now gen attempts cmd_token cmd_user ts pool :
-    (forall rid sid, snd (sg_step H oidc c k s conn now gen attempts cmd_token cmd_user ts pool) <> SgForwarded (AuOLoginOk rid sid)) ->
-    fst (sg_step H oidc c k s conn now gen attempts cmd_token cmd_user ts pool) = s.
+  Theorem sg_refused_leaves_state k s conn now gen attempts cmd_token cmd_user ts pool lplug :
+    (forall rid sid, snd (sg_step H oidc c k s conn now gen attempts cmd_token cmd_user ts pool lplug) <> SgForwarded (AuOLoginOk rid sid)) ->
+    fst (sg_step H oidc c k s conn now gen attempts cmd_token cmd_user ts pool lplug) = s.
   Proof.
     unfold sg_step. destruct (sg_auth k attempts) as [perm|]; [|reflexivity].
-    set (e := AuEFirst true conn now gen (AuFLogin (sg_login H k perm cmd_token cmd_user ts pool))).
+    set (e := AuEFirst true conn now gen (AuFLogin (sg_login H k perm cmd_token cmd_user ts pool) lplug)).
     destruct (au_step H oidc c s e) as [s' o] eqn:E. cbn. intros NoOk.
     assert (au_is_refusal o = true) as R.
-    { unfold e in E. cbn in E. destruct (au_verify_login _ _ _ _ _ _ _) in E; inversion E; subst; [|reflexivity].
+    { unfold e in E. cbn in E. destruct (au_lplug_apply lplug _) in E; [|inversion E; subst; reflexivity].
+      destruct (au_verify_login _ _ _ _ _ _ _) in E; inversion E; subst; [|reflexivity].
       exfalso. eapply NoOk. reflexivity. }
     pose proof (au_refused_unchanged H oidc c s e) as U. rewrite E in U. cbn in U. now apply U.
   Qed.
